@@ -192,11 +192,14 @@ def judge_sequence(ctx, case):
     elif container == "ndarray":
         seq = np.array(vals) if reps[0].startswith(("dt64", "epoch", "np_")) else np.array(vals, dtype=object)
         if seq.dtype.kind == "M":
+            ctx.count(f"C17.ndarray_unit:{seq.dtype}")
             exps = [expected((int((e - EPOCH) / timedelta(microseconds=1)) // 10 ** 6) * 10 ** 6) for e in exps]
     elif container == "dataarray":
-        seq = xarray.DataArray(np.array(vals, dtype="datetime64[ns]"), dims="time")
+        seq = xarray.DataArray(np.array(vals), dims="time")
+        ctx.count(f"C17.dataarray_unit:{seq.values.dtype}")
     elif container == "series":
-        seq = pd.Series(np.array(vals, dtype="datetime64[ns]"))
+        seq = pd.Series(np.array(vals))
+        ctx.count(f"C17.series_unit:{seq.values.dtype}")
     ctx.case(("seq", container, reps[0] if len(set(reps)) == 1 else "mixed", tz), nontrivial=len(vals) > 1,
              sample={"container": container, "values": [repr(v) for v in vals[:4]]})
     ok, got = guarded(ctx, "C17.no-exception", lambda: tt.to_datetime_utc(seq), case, key="C17:exception:seq:" + container)
@@ -361,9 +364,10 @@ def run_shard(ctx, shard):
             n = int(rng.integers(1, 6))
             uss = [draw_instant(rng)[1] for _ in range(n)]
             if container in ("dataarray", "series"):
-                reps = ["dt64_ns"] * n
+                # arrays keep the unit they were made with (numpy always; xarray/pandas since they support s/ms/us)
+                reps = [str(rng.choice(["dt64_ns", "dt64_s", "dt64_ms", "dt64_us"]))] * n
             elif container == "ndarray":
-                reps = [str(rng.choice(["dt64_ns", "epoch_float", "epoch_int", "aware", "iso_z", "naive"]))] * n
+                reps = [str(rng.choice(["dt64_ns", "dt64_s", "dt64_ms", "dt64_us", "epoch_float", "epoch_int", "aware", "iso_z", "naive"]))] * n
             else:
                 reps = [str(rng.choice(REPRS)) for _ in range(n)]
             judge(ctx, {"kind": "seq", "container": container, "uss": uss, "reps": reps, "tz": tz, "sub": sub})
